@@ -1776,7 +1776,7 @@ func run(c *core.Ctx) {
 	for _, dsc := range []string{"0", "1"} {
 		for _, e1 := range []int{0xFF, 0x00, 0x01, 0xEF, 0xFE} {
 			for _, e2 := range []int{0xFF, 0x00, 0x01, 0xEF, 0xFE} {
-				for cf := 0; cf < 4; cf++ {
+				for cf := 0; cf < 8; cf++ {
 					if stop || !c.Mine() {
 						continue
 					}
@@ -1785,6 +1785,12 @@ func run(c *core.Ctx) {
 					b2 := b1
 					b2.Rows = []stl.Row{{{Text: "y"}}}
 					b2.In, b2.Out = b1.Out, stl.TC{S: 3}
+					if cf >= 4 {
+						// the second block on screen at the same time as the first, elsewhere on it: each block is a cue
+						// with its own timecodes, position and justification
+						b2.In, b2.Out = b1.In, b1.Out
+						b2.VP, b2.JC = b1.VP-3, (b1.JC+1)%4
+					}
 					for i, e := range []int{e1, e2} {
 						b := []*stl.Block{&b1, &b2}[i]
 						switch e {
@@ -1799,7 +1805,7 @@ func run(c *core.Ctx) {
 						b1.CF = cf & 1
 					}
 					if !b2.UserData {
-						b2.CF = cf >> 1
+						b2.CF = cf >> 1 & 1
 					}
 					cs.Doc.Blocks = []stl.Block{b1, b2}
 					r.exec("ebn-pairs", cs, 2, true, false, nil)
